@@ -331,6 +331,12 @@ type pairSpec struct {
 	ClThreshold, SvThreshold int
 	Capacity                 int // bytes buffered per direction (0 = unbounded)
 	MaxRead                  int // cap on each transport read (0 = none)
+	// AfterDial, if set, selects the "early client" handshake: the client sees the
+	// 101 when the server decides the status line (as with net/http), AfterDial runs
+	// as soon as Dial has returned (it is expected to start writing), and the
+	// server's Hijack waits for the first client bytes so that they are already in
+	// the hijacked bufio.Reader when Accept takes the connection over.
+	AfterDial func(cl *websocket.Conn) `json:"-"`
 }
 
 type pair struct {
@@ -359,9 +365,44 @@ func (e *env) openPair(s pairSpec) (*pair, error) {
 	}
 	pr := &pair{ClEnd: clEnd, SvEnd: svEnd}
 	var acceptErr error
+	type accepted struct {
+		sv  *wsx.Server
+		err error
+	}
+	accCh := make(chan accepted, 1)
 	rt := rtf(func(r *http.Request) (*http.Response, error) {
 		r2, _ := http.NewRequest("GET", "http://verif.test/ws", nil)
 		r2.Header = r.Header.Clone()
+		if s.AfterDial != nil {
+			type decided struct {
+				code int
+				h    http.Header
+			}
+			hdr := make(chan decided, 1)
+			w := wsx.NewRespWriter(svEnd)
+			w.OnHeader = func(code int, h http.Header) { hdr <- decided{code, h} }
+			w.WaitPending = 2 * time.Second
+			e.Go(func() {
+				sv, err := wsx.AcceptWith(w, r2, &websocket.AcceptOptions{CompressionMode: s.SvMode, CompressionThreshold: s.SvThreshold})
+				accCh <- accepted{sv, err}
+			})
+			select {
+			case d := <-hdr:
+				if d.code != http.StatusSwitchingProtocols {
+					a := <-accCh
+					accCh <- a
+					acceptErr = a.err
+					return nil, fmt.Errorf("server answered %d: %v", d.code, a.err)
+				}
+				pr.Agreed = wsx.ParseAgreed(d.h.Values("Sec-WebSocket-Extensions"))
+				return &http.Response{Status: "101 Switching Protocols", StatusCode: d.code, Proto: "HTTP/1.1", ProtoMajor: 1, ProtoMinor: 1,
+					Header: d.h, Body: clEnd, Request: r}, nil
+			case a := <-accCh:
+				accCh <- a
+				acceptErr = a.err
+				return nil, fmt.Errorf("accept ended without a status line: %v", a.err)
+			}
+		}
 		sv, err := wsx.AcceptOn(svEnd, r2, &websocket.AcceptOptions{CompressionMode: s.SvMode, CompressionThreshold: s.SvThreshold})
 		if err != nil {
 			acceptErr = err
@@ -383,5 +424,14 @@ func (e *env) openPair(s pairSpec) (*pair, error) {
 		return nil, err
 	}
 	pr.Cl = c
+	if s.AfterDial != nil {
+		s.AfterDial(c)
+		a := <-accCh
+		if a.err != nil {
+			return nil, a.err
+		}
+		pr.Sv = a.sv.Conn
+		e.track(pr.Sv)
+	}
 	return pr, nil
 }
